@@ -194,7 +194,7 @@ def check_pixel(R, x, nodata, c0, c1, meta, mp_check=False):
         R.count("gammastd_calls")
         if ok.any():
             dev = np.abs(1000 * y[ok] - 1000 * exp["spi"][ok])
-            if np.any(dev > O.tie_band(exp["spi"][ok]) + 1e-6 + (interval[1][ok] - interval[0][ok])):
+            if np.any(~(dev <= O.tie_band(exp["spi"][ok]) + 1e-6 + (interval[1][ok] - interval[0][ok]))):  # NaN-safe
                 i = int(np.flatnonzero(ok)[int(np.argmax(dev))])
                 R.violation("C07:value", f"gammastd: cell {i} x={xf[i]:.6g}: {y[i]:.9f}, definition {exp['spi'][i]:.9f}", case)
                 return
